@@ -98,6 +98,7 @@ class Aggregator:
         for s in self.sweeps:
             if s['sweep'] == info['sweep']:
                 s['points'] += info['points']
+                s['cpu_s'] = round(s.get('cpu_s', 0) + info.get('cpu_s', 0), 1)
                 return
         info.pop('part', None)
         self.sweeps.append(info)
@@ -129,8 +130,19 @@ class Aggregator:
                            '(normalised schedule segments, every call result, per-thread steps)')
             cov['distinct_preemption_pairs(line preempted at, function that ran in the gap)'] = len(self.pairs)
             cov['distinct_lines_preempted_at'] = len({p[0] for p in self.pairs})
-            cov['context_bound_2_sweeps'] = [s for s in self.sweeps if not s.get('fpair')][:50]
+            cov['context_bound_2_sweeps'] = [s for s in self.sweeps if not s.get('fpair') and s.get('kind') != 'conflict'][:50]
             cov['context_bound_2_sweeps_total'] = len(self.sweeps)
+            cf = [s for s in self.sweeps if s.get('kind') == 'conflict']
+            cov['conflict_directed_sweeps'] = {
+                'rule': 'a pool of calls is run alone and cold, each followed by a generic walk over all state reachable from a5 module '
+                        'globals; two calls that leave the same place (global, attribute, list slot, dict entry) changed are a candidate '
+                        'pair and are swept exhaustively (different content preferred: they can overwrite each other). Selection only, never an oracle.',
+                'pool': getattr(self, 'conflict_pool', None),
+                'sweeps': [{'A': s['A'], 'B': s['B'], 'place': (s.get('conflict') or {}).get('place'),
+                            'different_content': (s.get('conflict') or {}).get('different_content'), 'gran': s.get('gran'),
+                            'points': s['points'], 'of': s['of'], 'exhaustive': s['exhaustive']} for s in cf][:40],
+                'points': sum(s['points'] for s in cf),
+            }
             mx = [s for s in self.sweeps if s.get('fpair')]
             cov['function_pair_matrix'] = {
                 'rule': 'ordered pairs (A function, B function) of the 13 public functions swept at every line boundary of A '
